@@ -620,11 +620,23 @@ func runC17(r *Run) {
 			for _, b := range f.Blocks {
 				for _, ins := range b.Instrs {
 					c, isC := ins.(*ssa.Call)
-					if !isC || !isBuiltin(c, "append") || enclosingLoopHead(f, b) != nil || len(c.Common().Args) != 2 {
+					if !isC || enclosingLoopHead(f, b) != nil || len(c.Common().Args) != 2 {
+						continue
+					}
+					// append(list, existing...) or copy(list made with len(existing), existing)
+					if !isBuiltin(c, "append") && !isBuiltin(c, "copy") {
 						continue
 					}
 					t := sf.TB.Of(c.Common().Args[1]).String()
 					if strings.Contains(t, "."+getter+"(") && strings.Contains(t, "$"+f.Params[0].Name()) {
+						if isBuiltin(c, "copy") {
+							// the destination must have room for all of them: made with that length
+							dst := sf.TB.Of(c.Common().Args[0]).String()
+							_ = dst
+							if ms, isMS := stripIface(c.Common().Args[0]).(*ssa.MakeSlice); !isMS || !strings.Contains(sf.TB.Of(ms.Len).String(), "len("+t+")") {
+								continue
+							}
+						}
 						okKeep = true
 					}
 				}
